@@ -71,6 +71,7 @@ type Term struct {
 
 // TermBank interns terms and remembers declarations.
 type TermBank struct {
+	bvMemo map[*Term]bool
 	terms  map[string]*Term
 	nextID int
 	consts map[string]*Sort   // declared constants
@@ -85,7 +86,7 @@ type FuncDecl struct {
 }
 
 func NewBank() *TermBank {
-	return &TermBank{terms: map[string]*Term{}, consts: map[string]*Sort{}, funcs: map[string]*FuncDecl{}, fresh: map[string]int{}}
+	return &TermBank{bvMemo: map[*Term]bool{}, terms: map[string]*Term{}, consts: map[string]*Sort{}, funcs: map[string]*FuncDecl{}, fresh: map[string]int{}}
 }
 
 func (b *TermBank) intern(t *Term) *Term {
@@ -810,4 +811,23 @@ func (b *TermBank) Script(asserts []*Term, extraDecls string, getModel bool) str
 		sb.WriteString("(get-model)\n")
 	}
 	return sb.String()
+}
+
+// hasBoundVar reports whether t mentions a quantifier-bound variable freely
+// (conservatively: anywhere).
+func (b *TermBank) hasBoundVar(t *Term) bool {
+	if v, ok := b.bvMemo[t]; ok {
+		return v
+	}
+	r := t.Op == "bound"
+	if !r {
+		for _, a := range t.Args {
+			if b.hasBoundVar(a) {
+				r = true
+				break
+			}
+		}
+	}
+	b.bvMemo[t] = r
+	return r
 }
